@@ -18,6 +18,7 @@ import json
 import math
 import os
 import sys
+import threading
 import time
 import traceback
 from collections import Counter
@@ -31,6 +32,11 @@ WORK_DIR = ROOT / ".work"
 KNOWN_FILE = ROOT / "known_findings.json"
 
 PER_KEY_KEEP = 6
+EARLY_STOP_AFTER = int(os.environ.get("VERIF_EARLY_STOP", "400"))
+
+
+class EarlyStop(BaseException):
+    """Raised (main thread only) once a run has collected so many unexplained failures that continuing adds nothing; BaseException so that no `except Exception` swallows it."""
 MAX_FAIL_KEEP = 40  # failures kept in full
 MAX_SAMPLES = 6
 
@@ -104,6 +110,9 @@ class Monitor:
         self.n_errors = 0
         self.failures: List[Failure] = []
         self.n_fail = 0
+        self._n_unknown = 0
+        self._known_keys = None
+        self._stopping = False
         self.fail_keys: Counter = Counter()
         self.sigs: set = set()
         self.samples: List[Any] = []
@@ -133,6 +142,7 @@ class Monitor:
             self.classes[f"{point}|{cls}"] += 1
         self.n_fail += 1
         self.fail_keys[key or f"?{point}"] += 1
+        self._maybe_stop_early(key or f"?{point}")
         # witnesses are kept per key (mechanism), so that thousands of reproductions of a known finding can never crowd out the one unknown violation
         if sum(1 for f in self.failures if f.key == key) < PER_KEY_KEEP:
             case = self.case
@@ -141,6 +151,21 @@ class Monitor:
 
                 case = attach.current_case()
             self.failures.append(Failure(point, jsonable(witness), key, jsonable(case)))
+
+    def _maybe_stop_early(self, key: str) -> None:
+        """A tree that has already produced hundreds of violations no known finding explains is violated whatever the rest of the workload shows: stop the workload
+        (main thread only - never inside a scheduler's worker thread) instead of grinding through it.  The verdict is unaffected; the evidence says where it stopped."""
+        if self._stopping:
+            return
+        if self._known_keys is None:
+            self._known_keys = set(load_known(self.pid))
+        if key in self._known_keys:
+            return
+        self._n_unknown += 1
+        if self._n_unknown >= EARLY_STOP_AFTER and threading.current_thread() is threading.main_thread():
+            self._stopping = True
+            self.notes["stopped_early"] = f"workload abandoned after {self._n_unknown} failures that no known finding explains"
+            raise EarlyStop(self.notes["stopped_early"])
 
     def check(self, cond: bool, point: str, witness: Callable[[], dict] | dict, key: Optional[str] = None,
               cls: Optional[str] = None, sig: Any = None, sample: Any = None) -> bool:
